@@ -393,7 +393,8 @@ pub fn observe_all<const N: usize>(g: &Sodg<N>, with_slices: bool) -> String {
         t.push_str(&format!("v_print({v})={:?}\n", guarded(|| g.v_print(*v).ok()).ok().flatten()));
         t.push_str(&format!("inspect({v})={:?}\n", guarded(|| g.inspect(*v).ok()).ok().flatten()));
         if with_slices {
-            t.push_str(&format!("slice({v}).keys={:?}\n", guarded(|| g.slice(*v).ok().map(|s| s.keys())).ok().flatten()));
+            // the slice with everything it shows, incl. how its vertices are grouped (Debug lists the groups)
+            t.push_str(&format!("slice({v})={:?}\n", guarded(|| g.slice(*v).ok().map(|s| (s.keys(), format!("{s:?}")))).ok().flatten()));
         }
     }
     t.push_str(&format!("debug={:?}\n", guarded(|| format!("{g:?}")).ok()));
@@ -412,15 +413,13 @@ fn first_diff(a: &str, b: &str) -> String {
 }
 
 /// What a graph does from here on: reads of everything in both orders, then fresh ids.
-pub fn future_trace<const N: usize>(g: &Sodg<N>, keys: &[usize]) -> Vec<String> {
-    let mut t = drain_trace(g, keys, false);
+pub fn future_trace<const N: usize>(g: &Sodg<N>, keys: &[usize]) -> Option<Vec<String>> {
+    let mut t = drain_trace(g, keys, false)?;
     t.push("--".to_string());
-    t.extend(drain_trace(g, keys, true));
+    t.extend(drain_trace(g, keys, true)?);
     t.push("--".to_string());
-    if let Some(c) = exact_copy(g) {
-        t.extend(next_ids_owned(c));
-    }
-    t
+    t.extend(next_ids_owned(exact_copy(g)?));
+    Some(t)
 }
 
 /// the next two ids an object we own hands out (each added)
@@ -567,7 +566,8 @@ pub fn reload_probe<const N: usize>(g: &Sodg<N>, m: &Model, out: &mut Vec<Findin
             // same future reads (the allocator may restart: ids are judged by C05 only)
             let keys = m.keys();
             for desc in [false, true] {
-                let (a, b) = (drain_trace(g, &keys, desc), drain_trace(&l, &keys, desc));
+                // without exact copies of both nothing can be compared (C10 judges clone())
+                let (Some(a), Some(b)) = (drain_trace(g, &keys, desc), drain_trace(&l, &keys, desc)) else { break };
                 if a != b {
                     let i = a.iter().zip(b.iter()).position(|(x, y)| x != y).unwrap_or(a.len().min(b.len()));
                     out.push(Finding::new("reload-future-differs", tags, format!("given the same reads the reloaded graph behaves differently: original {:?}, reloaded {:?}", a.get(i), b.get(i))));
@@ -618,6 +618,9 @@ pub fn cuts_of_image<const N: usize>(bytes: &[u8], out: &mut Vec<Finding>, count
     }
     let Ok(file) = std::fs::OpenOptions::new().write(true).open(&f) else { return };
     for k in (0..bytes.len()).rev() {
+        if k % 4096 == 0 {
+            crate::inflight::progress();
+        }
         if file.set_len(k as u64).is_err() {
             return;
         }
